@@ -23,7 +23,8 @@ EXPLANATION = (
     ' (R6) the existence-lock fallback is reached only when no kernel lock primitive is available; R2 covers counted `for` acquire loops too (a count of attempts is not a deadline).'
     ' (R7) an acquisition attempt reports success only after its own lock primitive completed normally (exception-aware set domination), and the state flag release()/is_held() rely on is set then.'
     " (R8) the S3 lock owner token is a uuid4 drawn in the provider's own __init__; (R9) the lock directory is named only as the argument of create_lock; (R10) every provider a backend's create_lock builds is built on the canonical resolution of the path."
-    ' (R11) the O_EXCL fallback lock is broken only under `age > k * timeout`.')
+    ' (R11) the O_EXCL fallback lock is broken only under `age > k * timeout`.'
+    ' (R12) lock ages use UTC-aware clocks (C20.R11); (R13) release() lets go on every path past its guard, exception edges included; (R14) the polling provider deletes an expired lock only when BOTH LastModified and ETag of the second HEAD equal the first (separately, or as one tuple / NamedTuple built the same way); R3/R4/R5 look through helpers returning the PUT response and through boolean record fields carrying `content == lock_id`.')
 NOT_DECIDED = "kernel / S3 semantics, interleavings, numeric timeout bounds"
 
 
